@@ -138,33 +138,59 @@ func ruleNAV6(p *Program) *RuleResult {
 	if err != nil {
 		return r.anchorFail(err)
 	}
-	// (a) lookups performed on Descriptor().Fields(): which name expressions are tried
-	usesSnake, usesJSON, hasRetry := false, false, false
-	for _, b := range ev.Blocks {
-		for _, ins := range b.Instrs {
-			c, ok := ins.(*ssa.Call)
-			if !ok || !c.Common().IsInvoke() || namedName(c.Common().Value.Type()) != "FieldDescriptors" {
-				continue
-			}
-			switch c.Common().Method.Name() {
-			case "ByJSONName":
-				if ld, ok := c.Common().Args[0].(*ssa.UnOp); ok {
-					if fa, ok := ld.X.(*ssa.FieldAddr); ok && fieldName(fa) == "FieldName" {
-						usesJSON = true
-					}
-				}
-			case "ByName":
-				if derivesFromSnake(c.Common().Args[0], 0, &hasRetry) {
-					usesSnake = true
-				}
-			}
-		}
+	// (a) the lookups Evaluate performs on Descriptor().Fields() for a given element
+	// name: Evaluate is analysed with FieldName pinned and every lookup answering
+	// "absent", so that each fallback is reached; the names handed to ByName /
+	// ByJSONName are read off the observed calls (wherever in Evaluate or its
+	// helpers they are made)
+	dt0, err := p.typesPkg(dtPkgPath)
+	if err != nil {
+		return r.anchorFail(err)
 	}
+	hn0 := dt0.Scope().Lookup("HumanName")
+	if hn0 == nil {
+		return r.anchorFail(fmt.Errorf("anchor: datatypes HumanName not found"))
+	}
+	type lookups struct{ byName, byJSON map[string]bool }
+	lookupCache := map[string]lookups{}
+	lookupsFor := func(name string) lookups {
+		if l, ok := lookupCache[name]; ok {
+			return l
+		}
+		l := lookups{map[string]bool{}, map[string]bool{}}
+		an := newAnalyzer()
+		an.maxBlocks = 300
+		an.callModel = func(c *ssa.CallCommon, args []aval) (aval, bool) {
+			if c.IsInvoke() && namedName(c.Value.Type()) == "FieldDescriptors" && len(args) == 2 {
+				switch c.Method.Name() {
+				case "ByName", "ByJSONName":
+					if args[1].k == kConst && args[1].c.Kind() == constant.String {
+						if c.Method.Name() == "ByName" {
+							l.byName[constant.StringVal(args[1].c)] = true
+						} else {
+							l.byJSON[constant.StringVal(args[1].c)] = true
+						}
+					} else {
+						l.byName["?"] = true
+					}
+					return aval{k: kNil}, true
+				}
+			}
+			return stringLibModel(c, args)
+		}
+		recv := nodeReceiver(ev, map[string]aval{"FieldName": cStr(name), "Permissive": cBool(false)})
+		item := aval{k: kNonNil, dyn: types.NewPointer(hn0.Type())}
+		an.analyze(ev, []aval{recv, nonnil("ctx"), coll(item)})
+		lookupCache[name] = l
+		return l
+	}
+	probe := lookupsFor("lethalDose50")
+	usesSnake, usesJSON, hasRetry := probe.byName["lethal_dose_50"], probe.byJSON["lethalDose50"], probe.byName["lethal_dose_50_value"]
 	if !usesSnake && !usesJSON {
-		r.undecided("FieldExpression.Evaluate|lookup", "no recognised lookup of the element name (ByName(strcase.ToSnake(FieldName)) / ByJSONName(FieldName))", p.pos(ev.Pos()), "unsupported shape: the name mapping cannot be modelled")
+		r.undecided("FieldExpression.Evaluate|lookup", fmt.Sprintf("no recognised lookup of the element name (ByName(strcase.ToSnake(FieldName)) / ByJSONName(FieldName)); observed ByName%v ByJSONName%v", keysOf(probe.byName), keysOf(probe.byJSON)), p.pos(ev.Pos()), "unsupported shape: the name mapping cannot be modelled")
 		return r
 	}
-	r.note("lookups modelled: ByName(ToSnake(name))=%v, \"_value\" retry=%v, ByJSONName(name)=%v", usesSnake, hasRetry, usesJSON)
+	r.note("lookups observed for the probe name: ByName(ToSnake(name))=%v, \"_value\" retry=%v, ByJSONName(name)=%v", usesSnake, hasRetry, usesJSON)
 	// (b) admission test: isEvaluable evaluated by SCCP per name, on a message
 	// type that is not one of the date/time primitives
 	dt, err := p.typesPkg(dtPkgPath)
@@ -251,6 +277,13 @@ func ruleNAV6(p *Program) *RuleResult {
 		snake := strcase.ToSnake(f.JSON)
 		resolves := snake == f.Proto || (hasRetry && snake+"_value" == f.Proto)
 		resolves = (usesSnake && resolves) || usesJSON
+		if snake != f.Proto || thoroughTier || n%40 == 0 {
+			// the names that do not snake-case to their proto name (and a sample of the
+			// others; all of them in the thorough tier) are decided on their own lookups
+			l := lookupsFor(f.JSON)
+			resolves = l.byName[f.Proto] || l.byJSON[f.JSON]
+			r.count("names_probed", 1)
+		}
 		switch a := admit(f.JSON); {
 		case a < 0:
 			bad[f.JSON] = append(bad[f.JSON], fmt.Sprintf("%s.%s: the admission test could not be evaluated", f.Msg, f.JSON))
@@ -276,6 +309,15 @@ func ruleNAV6(p *Program) *RuleResult {
 	}
 	r.floor("schema_fields_checked", 3000)
 	return r
+}
+
+func keysOf(m map[string]bool) []string {
+	var out []string
+	for k := range m {
+		out = append(out, k)
+	}
+	sort.Strings(out)
+	return out
 }
 
 // derivesFromSnake: v is strcase.ToSnake(FieldName) or that plus "_value" (through a local cell).
